@@ -790,6 +790,13 @@ theorem C10_composed_active_alive (s : Sim) (evs : List Events) (hne : evs ≠ [
     ∀ a ∈ (run s evs).pop, a.present = true → a.alive = true :=
   run_active_alive evs hne s
 
+/-- **Conservation of agents over whole runs**: (active at the end) + (all recorded deaths) = (active at the start) +
+    (all births), with exactly one recorded row per step. -/
+theorem C10_composed_conservation (s : Sim) (evs : List Events) (h : ∀ a ∈ s.pop, Clean a) :
+    ∃ rs : List Row, (run s evs).rows = s.rows ++ rs ∧ rs.length = evs.length ∧
+      nPresent (run s evs).pop + sumNat (rs.map (·.newDeaths)) = nPresent s.pop + sumNat (evs.map (·.births)) :=
+  run_conservation evs s h
+
 /-- kernel-evaluated run: two agents, a birth and a background death of uid 0 in step 0, nothing in step 1: three
     identifiers, uid 0 dead and removed for good, uid 2 the newborn -/
 example :
